@@ -10,6 +10,7 @@ C09 — line-protocol driver of the model (core only).
   raw <lo> <hi> <filter>                             → rows s:t:c,c,c,c|…     the plain select
   agg <f:col+…> <lo> <hi> nohint|exact <grp> <interval> <fill> asc|desc <filter>
                                                      → ans <group>{<bucket>=<v>,…[@t];…} …
+  auxq <f:col/aux/…> … (as agg)                      → ok      (spec side only)
 -/
 import OG.C09.Model
 
@@ -379,6 +380,10 @@ def step (st : St) (line : String) : St × String :=
     match lo.toInt?, hi.toInt?, parseFilter filter with
     | some lo, some hi, some f => (st, st.evalRaw lo hi f)
     | _, _, _ => (st, "bad-op")
+  | "auxq" :: _ =>
+    -- a lone selector with auxiliary columns: not modelled (the harness compares the answer
+    -- with the rows only)
+    (st, "ok")
   | "agg" :: rest =>
     match parseQuery rest with
     | some q => (st, st.evalAgg q)
